@@ -147,7 +147,7 @@ def _shrink_worker(engine_name, cand, target):
   return v
 
 
-def shrink_case(eng, engine_name, case, target, budget_s=60, max_exec=400):
+def shrink_case(eng, engine_name, case, target, budget_s=60, max_exec=800):
   """Greedy delta-debugging over engine-supplied candidates.  Candidates are
   evaluated in a forked child each so that a crash/hang in a candidate does not
   take the master down."""
@@ -281,7 +281,7 @@ def run_check(engine_name, tier, verif_seed, budget_override=None, runs_override
   for (r, v) in new_violations[:5]:
     case = r["case"]
     small, nexec = shrink_case(eng, engine_name, case, v,
-                               budget_s=60 if tier == "quick" else 180)
+                               budget_s=90 if tier == "quick" else 240)
     rp = os.path.join(OUT, "replays", "%s-%d-%d-%s.json" % (eng.ID, verif_seed, r["i"], v["check"]))
     os.makedirs(os.path.dirname(rp), exist_ok=True)
     doc = {"property": eng.ID, "engine": engine_name, "verif_seed": verif_seed,
